@@ -80,7 +80,7 @@ X = [
     "$$m$$\n", "(t)=\npara t\n", "x[^f]\n\n[^f]: foot\n", "[r]: http://u\n\n[a][r]\n", "```{tip}\ninner\n```\n", "{abbr}`x (y)`\n", "% c\n", "+++\n",
     "Term\n: def\n", ":f: v\n", "{nosuchrole}`x`\n", "```{nodir}\n```\n", ":::{tip}\ncolon inner\n:::\n", "- [ ] task\n\n  para in item\n",
     "line one  \nline two\n", "```\ncode with trailing blanks  \n\n```\n", "    indented code  \n", "> quoted  \n> second\n",
-    "lead\n\n---\n\ntail\n", "\ttab indented code\n", "```\na\tb\n```\n", "- li\n\n\ttab continuation\n", "para with\ttab\n",
+    "lead\n\n---\n\ntail\n", "```{topic} Topic title\ntopic body\n```\n", "```{sidebar} Side title\nside body\n```\n", "\ttab indented code\n", "```\na\tb\n```\n", "- li\n\n\ttab continuation\n", "para with\ttab\n",
 ]
 
 
@@ -118,6 +118,9 @@ class Wrappers:
         (d / f"incfm{self.tag}.md").write_text("---\na: 1\n---\n" + x)
         yield "include-fm", f"```{{include}} incfm{self.tag}.md\n```\n", lambda doc: doc.children, None, False
         yield "include-in-note", f"````{{note}}\n```{{include}} inc{self.tag}.md\n```\n````\n", lambda doc: doc[0].children, None, False
+        # the same file a second time (inside a note, after the first include at top level): the second copy is judged
+        yield ("include-again", f"```{{include}} inc{self.tag}.md\n```\n\n````{{note}}\n```{{include}} inc{self.tag}.md\n```\n````\n",
+               lambda doc: doc[-1].children, None, False)
         yield "subst", "{{k}}\n", lambda doc: doc.children, {"k": x}, False
 
 
@@ -139,7 +142,7 @@ class TransparencySystem(System):
         self.wrap = Wrappers(self.dir, f"-{wid}")
 
     def bounds(self):
-        return {"blocks": self.k, "symbols": len(X), "wrappers": 17}
+        return {"blocks": self.k, "symbols": len(X), "wrappers": 18}
 
     def alphabet(self):
         return X
@@ -173,6 +176,18 @@ class TransparencySystem(System):
                 d, w = render(text, src, subs)
                 o, om = pf(sel(d))
                 om_all = all_msgs(d)
+                if name == "include-again":
+                    # duplicated names / footnotes interact between the two copies: the reference is the same text written out twice
+                    ref, _ = render(x + "\n\n````{note}\n\n" + x + "````\n", src)  # (blank line: the body must not be read as an option block)
+                    rb, _ = pf(ref.children)
+                    o, _ = pf(d.children)
+                    if o != rb or om_all != all_msgs(ref):
+                        import difflib
+
+                        diff = "\n".join(difflib.unified_diff(rb.splitlines(), o.splitlines(), "written-out", "included", lineterm="", n=1))[:1200]
+                        viol.append(violation("transparency", {"clause": "transparency", "wrapper": name, "kind": "nodes"},
+                                              "including one file twice (top level, then inside a note) differs from writing its text out twice", text=text, body=x, diff=diff))
+                    continue
             except Exception as exc:
                 viol.append(violation("transparency", {"clause": "transparency", "wrapper": name, "kind": "exception"},
                                       f"wrapper {name}: {type(exc).__name__}: {exc}", text=text, body=x))
